@@ -113,7 +113,12 @@ async def explore(tier, seed, m, v):
             opn = ops[k][1]
             kind = "valid"
             r = rng.random()
-            if r < 0.12: opn = rng.choice(["Nope", "op0", "", None, "Op1", "Op7"]); kind = "opname"
+            if r < 0.12:
+                opn = rng.choice(["Nope", "op0", "", None, "Op1", "Op7"]); kind = "opname"
+                named_ = [n_ for _, n_ in ops if n_]
+                if named_ and rng.random() < 0.4:
+                    # a name that is NOT the name of an operation: padded with blanks / a line feed / a no-break space, or blank
+                    opn = rng.choice([" " + named_[0], named_[0] + "\n", "\u00a0" + named_[0], named_[0] + " ", "  ", "\n"])
             elif r < 0.24:
                 # syntactically fine, refused by (or crashing inside) a validation rule: still a response, never a raise
                 try:
@@ -125,6 +130,10 @@ async def explore(tier, seed, m, v):
                     elif alts: q = rng.choice(alts)[1]; kind = "rule-breaking"
                 except Exception:
                     pass
+            elif r < 0.27:
+                # a valid document followed by a character GraphQL does NOT ignore (form feed, vertical tab, no-break space ...):
+                # a syntax error like any other
+                q = q + rng.choice(["\x0c", "\x0b", "\u00a0", "\u2028", " \x0c ", "\n\u3000"]); kind = "trailing-garbage"
             elif r < 0.42: q = mutate_text(rng, q); kind = "mutated"
             elif r < 0.55: q = junk_text(rng); kind = "junk"
             elif r < 0.6: variables = rng.choice([None, {}, [1, 2], "str", 5, {"v0": object}]); kind = "odd-variables"
